@@ -248,23 +248,40 @@ pub fn gen_history(r: &mut Rng, mean_ops: u64, max_ops: u64) -> (Vec<Actor>, Vec
     // now and then a long history: a couple of hundred commits, a tag every few commits, a side line
     // merged back now and then (limits, buffers, quadratic shortcuts only show at this size)
     if r.chance(1, 40) {
-        let n = 80 + r.below(160);
+        // one in ten of them is *very* long (beyond any page or buffer of a thousand entries)
+        let n = if r.chance(1, 10) { 1050 + r.below(300) } else { 80 + r.below(160) };
         let mut long: Vec<Op> = vec![Op::Commit { actor: 0, dt: 1, adt: 0, with_file: false }, Op::Branch { name: "side-line".into(), from: None }];
+        // three flavours: version tags all along; one version tag at the very beginning and only
+        // non-version tags after it (every tagged commit has to be visited); one long untagged stretch that
+        // is merged into a side line carrying the nearest tag
+        let flavour = r.below(3);
         let mut minor = 0u64;
-        for i in 0..n {
-            long.push(Op::Commit { actor: 0, dt: r.range(0, 50), adt: 0, with_file: false });
-            if i % 7 == 3 {
-                minor += 1;
-                long.push(Op::Tag { name: format!("v0.{minor}.0"), kind: if i % 3 == 0 { TagKind::Annot } else { TagKind::Light }, target: None, actor: 0, dt: 0 });
+        if flavour == 2 {
+            long.push(Op::Tag { name: "v1.0.0".into(), kind: TagKind::Light, target: None, actor: 0, dt: 0 });
+            for _ in 0..n {
+                long.push(Op::Commit { actor: 0, dt: r.range(0, 50), adt: 0, with_file: false });
             }
-            if i % 11 == 5 {
-                long.push(Op::Tag { name: format!("build-{i}"), kind: TagKind::Light, target: None, actor: 0, dt: 0 });
-            }
-            if i % 29 == 17 {
-                long.push(Op::CheckoutNewest);
-                long.push(Op::Commit { actor: 0, dt: 1, adt: 0, with_file: false });
-                long.push(Op::Checkout { branch: 0 });
-                long.push(Op::Merge { others: vec![1], actor: 0, dt: 1 });
+            long.push(Op::CheckoutNewest);
+            long.push(Op::Commit { actor: 0, dt: 1, adt: 0, with_file: false });
+            long.push(Op::Tag { name: "v1.0.1".into(), kind: TagKind::Annot, target: None, actor: 0, dt: 1 });
+            long.push(Op::Merge { others: vec![0], actor: 0, dt: 1 });
+        } else {
+            for i in 0..n {
+                long.push(Op::Commit { actor: 0, dt: r.range(0, 50), adt: 0, with_file: false });
+                if (flavour == 0 && i % 7 == 3) || (flavour == 1 && i % 3 == 1) {
+                    minor += 1;
+                    let name = if flavour == 0 || minor == 1 { format!("v0.{minor}.0") } else { format!("snapshot-{minor}") };
+                    long.push(Op::Tag { name, kind: if i % 3 == 0 { TagKind::Annot } else { TagKind::Light }, target: None, actor: 0, dt: 0 });
+                }
+                if i % 11 == 5 {
+                    long.push(Op::Tag { name: format!("build-{i}"), kind: TagKind::Light, target: None, actor: 0, dt: 0 });
+                }
+                if i % 29 == 17 {
+                    long.push(Op::CheckoutNewest);
+                    long.push(Op::Commit { actor: 0, dt: 1, adt: 0, with_file: false });
+                    long.push(Op::Checkout { branch: 0 });
+                    long.push(Op::Merge { others: vec![1], actor: 0, dt: 1 });
+                }
             }
         }
         long.extend(ops);
